@@ -6,9 +6,11 @@ Functions for fitting and minimizing nspheres:
 circles, spheres, hyperspheres, etc.
 """
 
+import itertools
+
 import numpy as np
 
-from . import convex, util
+from . import convex, grouping, util
 from .constants import log, tol
 
 try:
@@ -45,10 +47,12 @@ def minimum_nsphere(obj):
     """
     Compute the minimum n- sphere for a mesh or a set of points.
 
-    Uses the fact that the minimum n- sphere will be centered at one of
-    the vertices of the furthest site voronoi diagram, which is n*log(n)
-    but should be pretty fast due to using the scipy/qhull implementations
-    of convex hulls and voronoi diagrams.
+    Uses the fact that the points on the surface of the minimum n- sphere
+    are a face of the furthest site delaunay triangulation: its center is
+    the circumcenter of an edge, a triangle ... or a full simplex of that
+    triangulation (the last are the vertices of the furthest site voronoi
+    diagram). This is n*log(n) but should be pretty fast due to using the
+    scipy/qhull implementations of convex hulls and triangulations.
 
     Parameters
     ----------
@@ -79,30 +83,52 @@ def minimum_nsphere(obj):
     # method will fail so we check a least squares fit before
     # bothering to compute the voronoi diagram
     fit_C, fit_R, fit_E = fit_nsphere(points)
+    # points on a sphere which surrounds them: a nearly flat set or a small
+    # cap also fits a (very large) sphere well but that isn't the minimum
+    on_sphere = fit_E < 1e-6 and ((fit_C >= 0.0) & (fit_C <= points.max(axis=0))).all()
     # return fit radius and center to global scale
     fit_R = (((points - fit_C) ** 2).sum(axis=1).max() ** 0.5) * points_scale
     fit_C = (fit_C * points_scale) + points_origin
 
-    if fit_E < 1e-6:
+    # a simplex is its own (only) furthest site cell
+    dimension = points.shape[1]
+    is_simplex = len(points) == dimension + 1
+
+    if on_sphere and not is_simplex:
         # points were on an n-sphere so just return fit
         return fit_C, fit_R
 
-    # calculate a furthest site voronoi diagram
+    # calculate a furthest site delaunay triangulation
     # this will fail if the points are ALL on the surface of
     # the n-sphere but hopefully the least squares check caught those cases
     # , qhull_options='QbB Pp')
-    try:
-        voronoi = spatial.Voronoi(points, furthest_site=True)
-    except QhullError:
-        # qhull needs at least `dimension + 2` sites and refuses sites which
-        # are cospherical to its precision: a flat simplex or a flattened
-        # prism gets here because the least squares fit of the very large
-        # sphere through them doesn't converge to `1e-6`. The fit sphere
-        # was re-sized above to contain every point so return that.
-        log.debug("furthest site voronoi failed, returning fit", exc_info=True)
-        return fit_C, fit_R
+    if is_simplex:
+        simplices = np.arange(len(points)).reshape((1, -1))
+    else:
+        try:
+            simplices = spatial.Delaunay(points, furthest_site=True).simplices
+        except QhullError:
+            # qhull refuses sites which are cospherical to its precision:
+            # a flattened prism gets here because the least squares fit of
+            # the very large sphere through it doesn't converge to `1e-6`.
+            # The fit sphere was re-sized above to contain every point.
+            log.debug("furthest site delaunay failed, returning fit", exc_info=True)
+            return fit_C, fit_R
 
-    # find the maximum radius^2 point for each of the voronoi vertices
+    # the candidate centers are the circumcenters of every face of the
+    # triangulation: the full simplices are the furthest site voronoi vertices
+    # but the minimum sphere often touches fewer points, i.e. the two ends
+    # of the longest diagonal, and is then centered on an edge or a triangle
+    centers = []
+    for count in range(2, dimension + 2):
+        faces = np.vstack(
+            [simplices[:, c] for c in itertools.combinations(range(dimension + 1), count)]
+        )
+        faces = faces[grouping.unique_rows(np.sort(faces, axis=1))[0]]
+        centers.append(_circumcenters(points[faces]))
+    centers = np.vstack(centers)
+
+    # find the maximum radius^2 point for each of the candidate centers
     # this is worst case quite expensive but we have taken
     # convex hull to reduce n for this operation
     # we are doing comparisons on the radius squared then rooting once
@@ -111,31 +137,56 @@ def minimum_nsphere(obj):
         # although it does create a very large intermediate array
         # first, get an order of magnitude memory size estimate
         # a float64 would be 8 bytes per entry plus overhead
-        memory_estimate = len(voronoi.vertices) * len(points) * 9
+        memory_estimate = len(centers) * len(points) * 9
         if memory_estimate > _MAX_MEMORY():
             raise MemoryError
-        radii_2 = spatial.distance.cdist(
-            voronoi.vertices, points, metric="sqeuclidean"
-        ).max(axis=1)
+        radii_2 = spatial.distance.cdist(centers, points, metric="sqeuclidean").max(
+            axis=1
+        )
     except MemoryError:
         # log the MemoryError
         log.warning("MemoryError: falling back to slower check!")
         # fall back to a potentially very slow list comprehension
-        radii_2 = np.array(
-            [((points - v) ** 2).sum(axis=1).max() for v in voronoi.vertices]
-        )
+        radii_2 = np.array([((points - v) ** 2).sum(axis=1).max() for v in centers])
 
     # we want the smallest sphere so take the min of the radii
     radii_idx = radii_2.argmin()
 
-    # return voronoi radius and center to global scale
+    # return candidate radius and center to global scale
     radius_v = np.sqrt(radii_2[radii_idx]) * points_scale
-    center_v = (voronoi.vertices[radii_idx] * points_scale) + points_origin
+    center_v = (centers[radii_idx] * points_scale) + points_origin
 
     if radius_v > fit_R:
         return fit_C, fit_R
 
     return center_v, radius_v
+
+
+def _circumcenters(simplices):
+    """
+    The center of the smallest sphere through every vertex of each
+    simplex, which lies in the affine hull of that simplex.
+
+    Parameters
+    ------------
+    simplices : (n, k, d) float
+      Vertices of `n` simplices with `k <= d + 1` vertices each
+
+    Returns
+    ------------
+    centers : (n, d) float
+      Circumcenter of each simplex
+    """
+    origin = simplices[:, 0]
+    # edge vectors from the first vertex of every simplex
+    edges = simplices[:, 1:] - origin[:, None, :]
+    # the center is `origin + dot(w, edges)` with `gram @ w = |edges|^2 / 2`
+    gram = np.matmul(edges, edges.transpose((0, 2, 1)))
+    half = np.diagonal(gram, axis1=1, axis2=2)[:, :, None] / 2.0
+    # a degenerate simplex has a singular gram matrix: pinv still returns
+    # a point and every candidate is sized to contain all points later
+    weights = np.matmul(np.linalg.pinv(gram, hermitian=True), half)
+    return origin + (weights * edges).sum(axis=1)
 
 
 def fit_nsphere(points, prior=None):
